@@ -151,9 +151,7 @@ UNREACHED = {
     "pass": "no effect",
     "assert False": "tail of a type dispatch; reaching it is handled explicitly (ASSERT_UNCHANGED)",
 }
-UNREACHED_PREFIX = [
-    # (method qualname, text of the statement / block) -> reason; filled in below
-]
+# (method, exact text) pairs never reached: UNREACHED_IN, further below
 # `assert` whose failure leaves the collector state unchanged (LHSMaskCollector only)
 ASSERT_UNCHANGED = {
     "assert False": "non-assignable node in target position: the model's lhs_mask / stmt_mask return acc",
